@@ -12,6 +12,8 @@ m = re.search(r"place in\s+([A-Za-z0-9_./-]+)", first)
 if not m:
     sys.exit("cannot read the package dir from the first line of demo_test.go: %r" % first)
 pkg = m.group(1).strip().rstrip("/")
+if pkg.endswith(".go"):
+    pkg = os.path.dirname(pkg)
 p = subprocess.run([os.path.join(ROOT, "tools", "verify_seed.sh"), src, pkg], stdout=subprocess.PIPE, stderr=subprocess.STDOUT, text=True)
 tail = p.stdout[-1500:]
 print(tail)
